@@ -16,13 +16,15 @@ pub fn abs_cube(c: &Cube) -> CubeM {
 /// The subject cube `c` must be the canonical representation of the model cube `m`, and all
 /// its observers must agree with the semantics.
 pub fn check_cube(what: &str, c: &Cube, m: &CubeM) -> Verdict {
-    let a = abs_cube(c);
     if m.contradictory() {
         if *c != Cube::zero() || !c.is_zero() {
             return fail(format!("{}: the canonical zero cube (the result is contradictory)", what), format!("{:?}", c));
         }
-    } else if a != *m {
-        return fail(format!("{}: literals +{:?} -{:?}", what, m.pos, m.neg), format!("{:?} (+{:?} -{:?})", c, a.pos, a.neg));
+    } else {
+        let a = abs_cube(c);
+        if a != *m {
+            return fail(format!("{}: literals +{:?} -{:?}", what, m.pos, m.neg), format!("{:?} (+{:?} -{:?})", c, a.pos, a.neg));
+        }
     }
     // value on the support x background
     let mut sup = m.support();
@@ -31,7 +33,7 @@ pub fn check_cube(what: &str, c: &Cube, m: &CubeM) -> Verdict {
     }
     // backgrounds: all other variables 0, all 1, and the assignment satisfying the cube
     let sat = m.pos.iter().fold(0u64, |a, v| a | (1u64 << v));
-    for bg in [0u64, 0xffff_ffff, sat, sat ^ 0xffff_ffff] {
+    for bg in [0u64, 0xffff_ffff, sat] {
         for asg in assignments(&sup, bg) {
             let want = m.value(asg);
             let got = c.value(asg as usize);
@@ -77,10 +79,14 @@ fn check_pair(pa: u32, na: u32, pb: u32, nb: u32) -> Verdict {
         let b = Cube::from_mask(pb, nb);
         let mand = ma.and(&mb);
         let forms: [Cube; 4] = [a & b, &a & b, &a & &b, a & &b];
-        for (k, f) in forms.iter().enumerate() {
-            check_cube(&format!("a & b (form {})", k), f, &mand)?;
-            if *f != forms[0] {
-                return fail("all forms of & agree", format!("{:?} vs {:?}", f, forms[0]));
+        check_cube("a & b", &forms[0], &mand)?;
+        for (k, f) in forms.iter().enumerate().skip(1) {
+            // the other syntactic forms: same canonical cube (bit-identical and equal)
+            if *f != forms[0] || f.is_zero() != forms[0].is_zero() || f.num_lits() != forms[0].num_lits() {
+                return fail(format!("all forms of & agree (form {} vs form 0)", k), format!("{:?} vs {:?}", f, forms[0]));
+            }
+            if mand.contradictory() && *f != Cube::zero() {
+                return fail(format!("a & b (form {}): the canonical zero cube", k), format!("{:?}", f));
             }
         }
         let imp = sem_implies(&ma, &mb);
